@@ -66,6 +66,8 @@ def ref_eval(t):
     k = t[0]
     if k == "num":
         return t[1]
+    if k == "const":
+        return math.pi if t[1] == "pi" else math.e
     if k == "neg":
         return -ref_eval(t[1])
     if k == "fn":
@@ -142,7 +144,8 @@ def ref_eval(t):
 
 
 def prec(t):
-    return {"num": P_ATOM, "neg": P_UMINUS, "fn": P_UNARYFN, "e": P_E}.get(t[0]) if t[0] != "bin" else PREC[t[1]]
+    return {"num": P_ATOM, "const": P_ATOM, "neg": P_UMINUS, "fn": P_UNARYFN, "e": P_E}.get(t[0]) \
+        if t[0] != "bin" else PREC[t[1]]
 
 
 def render(t, full, sp):
@@ -153,6 +156,8 @@ def render(t, full, sp):
     k = t[0]
     if k == "num":
         return repr(t[1]) if not isinstance(t[1], float) else ("%r" % t[1])
+    if k == "const":
+        return rng.choice([t[1], t[1].upper(), t[1].capitalize()])
     if k == "neg":
         inner = render(t[1], full, sp)
         if full or prec(t[1]) < P_UMINUS:
@@ -180,6 +185,8 @@ def render(t, full, sp):
 
 def gen(depth):
     if depth == 0 or rng.random() < 0.25:
+        if rng.random() < 0.12:
+            return ("const", rng.choice(["pi", "e"]))
         return ("num", rng.choice([0, 1, 2, 3, 5, 7, 10, 2.5, 0.5, 12]))
     c = rng.random()
     if c < 0.12:
@@ -212,7 +219,7 @@ def close(a, b):
 
 
 def all_trees(depth):
-    nums = [("num", 2), ("num", 3)]
+    nums = [("num", 2), ("num", 3), ("const", "pi")]
     if depth == 0:
         return nums
     sub = all_trees(depth - 1)
